@@ -42,6 +42,12 @@ type seqcase struct {
 	// persistence timeout of an hour): what the handlers and hooks are given is the same -
 	// in particular the timeout bounds the append, not the publish context
 	Store int `json:"store,omitempty"`
+	// Second: a second bus is built from the same option VALUES for the store and the
+	// timeout (a shared []Option) plus four hooks of its own, after the bus under test.
+	// A publish on the first bus runs the first bus's hooks, never the other's.
+	Second bool `json:"second_bus_from_the_same_option_values,omitempty"`
+	// AfterShutdown: the bus has been through a completed Shutdown before the publishes
+	AfterShutdown bool `json:"after_shutdown,omitempty"`
 }
 
 func (s seqcase) String() string {
@@ -63,6 +69,12 @@ func (s seqcase) String() string {
 		sw = " (legacy hooks removed after the first publish)"
 	}
 	sw += []string{"", " (persisted)", " (persisted, with a persistence timeout)"}[s.Store]
+	if s.Second {
+		sw += " (a second bus built from the same option values)"
+	}
+	if s.AfterShutdown {
+		sw += " (after a completed Shutdown)"
+	}
 	return "sequence " + strings.Join(p, " ") + sw
 }
 
@@ -109,7 +121,28 @@ func (in *seqInst) Body() {
 	if in.s.Store == 2 {
 		opts = append(opts, eventbus.WithPersistenceTimeout(time.Hour)) // virtual time: never expires
 	}
+	// store and timeout first: those are the values a second bus shares
+	if n := len(opts) - 4; n > 0 && in.s.Second {
+		opts = append(append([]eventbus.Option{}, opts[4:]...), opts[:4]...)
+	}
 	bus := eventbus.New(opts...)
+	if in.s.Second {
+		foreign := func(name string) eventbus.PublishHook {
+			return func(t reflect.Type, ev any) { in.rec.Add("foreign-hook", evOf(ev), 0, name) }
+		}
+		foreignCtx := func(name string) eventbus.PublishHookContext {
+			return func(ctx context.Context, t reflect.Type, ev any) { in.rec.Add("foreign-hook", evOf(ev), 0, name) }
+		}
+		shared := opts[:len(opts)-4]
+		other := eventbus.New(append(append([]eventbus.Option{}, shared...), eventbus.WithBeforePublish(foreign("before")), eventbus.WithBeforePublishContext(foreignCtx("beforeCtx")),
+			eventbus.WithAfterPublish(foreign("after")), eventbus.WithAfterPublishContext(foreignCtx("afterCtx")))...)
+		_ = other
+	}
+	if in.s.AfterShutdown {
+		if err := bus.Shutdown(context.Background()); err != nil {
+			in.rec.Add("shutdown-error", 0, 0, err.Error())
+		}
+	}
 	for ti, T := range types {
 		ti := ti
 		for hi, o := range []evt.SubOpts{{Ctx: true}, {Ctx: true, Async: true, Sequential: true}} {
@@ -161,6 +194,15 @@ func (in *seqInst) Check(res *vrt.Result) []vrt.Violation {
 	}
 	types := []*evt.TypeOps{bp.Types[0], bp.Types[2]}
 	evs := in.rec.Events()
+	for _, e := range evs {
+		if e.K == "foreign-hook" {
+			bad("foreign-hook", fmt.Sprintf("a publish ran the %s hook of another bus (one built from the same store / timeout option values)", e.S))
+			break
+		}
+		if e.K == "shutdown-error" {
+			bad("shutdown", "Shutdown with a live context on an idle bus returned an error")
+		}
+	}
 	for i, p := range in.s.Pubs {
 		id := i + 1
 		val := fmt.Sprintf("v%d", id)
@@ -291,6 +333,19 @@ func seqcases(thorough bool) []seqcase {
 					for _, c2 := range []bool{false, true} {
 						l = append(l, seqcase{Pubs: []pubSpec{{Ty: t1, Cancelled: c1}, {Ty: t2, Cancelled: c2}}, Store: st})
 					}
+				}
+			}
+		}
+	}
+	// a second bus from the same option values; a bus that has been through Shutdown
+	for t1 := 0; t1 < 2; t1++ {
+		for _, c1 := range []bool{false, true} {
+			for _, c2 := range []bool{false, true} {
+				for _, st := range []int{1, 2} {
+					l = append(l, seqcase{Pubs: []pubSpec{{Ty: t1, Cancelled: c1}, {Ty: 0, Cancelled: c2}}, Store: st, Second: true})
+				}
+				for _, st := range []int{0, 1} {
+					l = append(l, seqcase{Pubs: []pubSpec{{Ty: t1, Cancelled: c1}, {Ty: 0, Cancelled: c2}}, Store: st, AfterShutdown: true})
 				}
 			}
 		}
